@@ -77,6 +77,7 @@ type Exec struct {
 	shimState   []func() string
 	nextObj     int
 	UserData    any
+	local       map[any]any
 	Stacks      []string
 	replayLabel []string
 }
@@ -98,6 +99,17 @@ func (e *Exec) Logf(format string, a ...any) {
 func (e *Exec) NewObjID(kind string) string {
 	e.nextObj++
 	return fmt.Sprintf("%s#%d", kind, e.nextObj)
+}
+
+// Local is per-execution storage for shims (nil until first Put).
+func (e *Exec) Local(k any) any { return e.local[k] }
+
+// PutLocal stores a per-execution value for a shim.
+func (e *Exec) PutLocal(k, v any) {
+	if e.local == nil {
+		e.local = map[any]any{}
+	}
+	e.local[k] = v
 }
 
 // RegisterState lets a shim object contribute to the global state key.
@@ -335,13 +347,13 @@ type SchedConfig struct {
 // SchedResult summarises an exploration.
 type SchedResult struct {
 	Execs, Complete, Pruned, Deadlocks, HorizonHits int
-	States                                         int
-	Transitions                                    int
-	MaxPoints                                      int
-	Exhaustive                                     bool
-	BoundCompleted                                 int
-	Outcomes                                       map[string]int
-	Failures                                       []SchedFailure
+	States                                          int
+	Transitions                                     int
+	MaxPoints                                       int
+	Exhaustive                                      bool
+	BoundCompleted                                  int
+	Outcomes                                        map[string]int
+	Failures                                        []SchedFailure
 }
 
 // SchedFailure is a violating execution.
